@@ -1052,7 +1052,7 @@ class Unit:
                 optional = ln.startswith("//@insert?")
                 if optional:
                     ln = "//@insert" + ln[len("//@insert?"):]
-                m = re.match(r"//@insert\s+(before|after|inv|loop-end|loop-start)\s+`(.*)`\s*$", ln)
+                m = re.match(r"//@insert\s+(before|after|inv|loop-end|loop-start|wrap)\s+`(.*)`\s*$", ln)
                 if not m:
                     m = re.match(r"//@insert\s+(tail|start|end)()\s*$", ln)
                 if not m:
@@ -1251,7 +1251,11 @@ class Unit:
                     continue
                 text = "\n".join(x[1] for x in ins)
                 marker = "\n/*@ghost-begin %d*/\n%s\n/*@ghost-end*/\n" % (lno, text)
-                if mode == "before":
+                if mode == "wrap":
+                    # R9 for an inner expression: `EXPR` -> `{ let r__ = EXPR; <ghost> r__ }` (same evaluation, the value is bound so that ghost code can follow it)
+                    new_body = new_body[:a] + "{ let r__ = " + new_body[a:b] + ";" + marker + "r__ }" + new_body[b:]
+                    self.counts.add("R9.expression-bound-to-local")
+                elif mode == "before":
                     new_body = new_body[:a] + marker + new_body[a:]
                 elif mode == "after":
                     new_body = new_body[:b] + marker + new_body[b:]
